@@ -7,6 +7,7 @@ force or forbid individual features (profiles)."""
 from __future__ import annotations
 
 import math
+import random
 
 UFO2FT = "com.github.googlei18n.ufo2ft."
 
@@ -321,6 +322,14 @@ def gen_family(rng, force=(), forbid=(), n_masters=None, max_glyphs=14, p_sparse
         if role == "curs" or ("cursive" in on and role == "base" and name.endswith("-ar")):
             g["anchors"].append(["entry", w, rng.choice([0, 50])])
             g["anchors"].append(["exit", 0, rng.choice([0, 120])])
+            # several *named* cursive pairs (entry.top/exit.top ...): the curs writer collects
+            # the names in a set and emits one lookup per pair.  Private PRNG (keyed by the
+            # glyph roster) so that the shared stream is left as it was.
+            nrng = random.Random("named-curs:%d:%s" % (upm, ",".join(names)))
+            if nrng.random() < 0.5:
+                for i, suffix in enumerate(nrng.sample(["top", "mid", "low", "alt", "swash"], nrng.randint(2, 4))):
+                    g["anchors"].append(["entry." + suffix, w, 10 + 7 * i])
+                    g["anchors"].append(["exit." + suffix, 0, 20 + 9 * i])
         if role == "composite" and rng.random() < 0.2 and "marks" in on:
             g["anchors"].append(["top", _q(rng, w / 2, spec["frac"]), 800])
     if "dottedcircle" in on and "marks" in on and rng.random() < 0.75:
